@@ -366,7 +366,18 @@ func (c *Chain) buildGenesis() (json.RawMessage, error) {
 				tp.TotalWriters, tp.TotalRecords = uint64(n), uint64(n)
 			}
 			ag.Topics[a4.Bech+sep+t] = tp
-			w := sdk.AccAddress([]byte(fmt.Sprintf("verif-bulk-wr-%03d----", i))[:20])
+			// address lengths other than 20 bytes among the bulk writers (32 = module / derived accounts, 21 and 19 = neighbours of the usual length):
+			// every length the address format admits is a writer the listings must name in full
+			wl := 20
+			switch i % 10 {
+			case 3:
+				wl = 32
+			case 6:
+				wl = 21
+			case 8:
+				wl = 19
+			}
+			w := sdk.AccAddress([]byte(fmt.Sprintf("verif-bulk-wr-%03d----------------", i))[:wl])
 			ag.Writers[a4.Bech+sep+"f000"+sep+w.String()] = &aoltypes.Writer{Moniker: "m", NanoTimestamp: blockTime(1).UnixNano()}
 			ag.Records[a4.Bech+sep+"f000"+sep+strconv.Itoa(i)] = &aoltypes.Record{Key: []byte("k"), Value: []byte(t), WriterAddress: w.String(), NanoTimestamp: blockTime(1).UnixNano()}
 		}
